@@ -66,13 +66,55 @@ def presentations(rnd, X, tree, allow_overlap):
             ch = tree.a5.cell_to_children(c)
             L += rnd.sample(ch, rnd.randint(1, len(ch)))
         else:
-            # a descendant two levels down
+            # a descendant up to two levels down (never below resolution 29)
             d = c
-            for _ in range(2):
+            for _ in range(min(2, 29 - tree.res(c))):
                 d = rnd.choice(tree.a5.cell_to_children(d))
-            L.append(d)
-    rnd.shuffle(L)
+            if d != c:
+                L.append(d)
+    k = rnd.random()
+    if k < 0.08:
+        L.sort()          # callers often pass sorted lists
+    elif k < 0.12:
+        L.sort(reverse=True)
+    else:
+        rnd.shuffle(L)
     return L
+
+
+def spine(rnd, a5, root, root_res, depth, complete):
+    """the complete partition of `root` refined along one random path for `depth` levels (one cell per level is replaced by
+    its children); canonical form = [root]. With complete=False one random leaf is removed (or replaced by part of its children),
+    so nothing above that leaf may merge."""
+    out = []
+    cur, r = root, root_res
+    for _ in range(depth):
+        if r >= 29:
+            break
+        kids = a5.cell_to_children(cur)
+        i = rnd.randrange(len(kids))
+        out.extend(k for j, k in enumerate(kids) if j != i)
+        cur, r = kids[i], r + 1
+    out.append(cur)
+    if not complete and len(out) > 1:
+        j = rnd.randrange(len(out))
+        victim = out.pop(j)
+        if rnd.random() < 0.5 and a5.get_resolution(victim) < 29:
+            vk = a5.cell_to_children(victim)
+            out.extend(rnd.sample(vk, rnd.randint(1, len(vk) - 1)))
+    return out
+
+
+def spine_case(rnd, a5, gen):
+    mode = rnd.random()
+    if mode < 0.35:
+        root, rr = 0, -1
+        depth = rnd.choice((30, 30, 29, rnd.randint(2, 30)))
+    else:
+        rr = rnd.randint(0, 27)
+        root = gen.random_cell(rnd, a5, rr)
+        depth = rnd.randint(2, 29 - rr)
+    return spine(rnd, a5, root, rr, depth, rnd.random() < 0.6), root
 
 
 def random_large(rnd, a5, gen, size_lo=300, size_hi=3000):
